@@ -153,6 +153,8 @@ public:
     long steps = 0;
     Stats stats;
     std::vector<ObservedAccess> observed;
+    std::vector<std::pair<int, int>> nestPairs;   // (task started, task it was nested in)
+    std::vector<std::pair<int, int>> invPairs;    // (task started, earliest-created task still pending)
     std::vector<std::string> errors;    // framework-level errors (unsupported construct, stuck graph)
 
     // names for dependency addresses (registered by the harness; never derived from raw addresses)
